@@ -794,6 +794,27 @@ def family_frontend():
                                 'func NewCfg() Cfg {\n\tid, _ := vrt.Call(2, false)\n\treturn Cfg{ID: id}\n}\n\nfunc NewDB(c Cfg) (DB, func()) {\n\tid, _ := vrt.Call(1, false, c.ID)\n\treturn DB{ID: id}, vrt.CleanupFn(1)\n}\n\n'
                                 'func NewDBPlain() DB {\n\tid, _ := vrt.Call(4, false)\n\treturn DB{ID: id}\n}\n\nvar Inner = wire.NewSet(NewCfg)\nvar Set = wire.NewSet(Inner, NewDB)\n')}}
     specs.append(RawSpec(files, 'three injectors sharing named sets: alias of a set, set of another package nesting a set, Build in panic() and as statement', family='frontend', extra_pkgs=extra))
+    # --- types of another package only in the signature / zero value; names colliding with import names
+    files = {
+        'providers.go': ('package {PKG}\n\nimport (\n\t"example.com/corpus/vrt"\n\t"example.com/corpus/{PKG}/dep"\n)\n\n'
+                         'func NewDBErr(c dep.Dep) (dep.DB, error) {\n\tid, err := vrt.Call(0, true, c.ID)\n\tif err != nil {\n\t\treturn dep.DB{}, err\n\t}\n\treturn dep.DB{ID: id}, nil\n}\n\n'
+                         'func NewPtr(c dep.Dep) (*dep.DB, func(), error) {\n\tid, err := vrt.Call(2, true, c.ID)\n\tif err != nil {\n\t\treturn nil, vrt.FailedCleanupFn(2), err\n\t}\n\treturn &dep.DB{ID: id}, vrt.CleanupFn(2), nil\n}\n'),
+        'wire.go': ('//go:build wireinject\n// +build wireinject\n\npackage {PKG}\n\nimport (\n\t"github.com/google/wire"\n\t"example.com/corpus/{PKG}/dep"\n)\n\n'
+                    'func InjectDB(dep dep.Dep) (dep.DB, error) {\n\tpanic(wire.Build(NewDBErr))\n}\n\n'
+                    'func InjectPtr(vrt dep.Dep) (*dep.DB, func(), error) {\n\tpanic(wire.Build(NewPtr))\n}\n\n'
+                    'func InjectArr() ([2]dep.DB, error) {\n\tpanic(wire.Build(dep.NewArr, dep.NewDep))\n}\n'),
+        'zz_driver.go': ('//go:build !wireinject\n// +build !wireinject\n\npackage {PKG}\n\nimport (\n\t"example.com/corpus/vrt"\n\t"example.com/corpus/{PKG}/dep"\n)\n\nfunc VDrive() {\n'
+                         '\tfor round := 0; round < 2; round++ {\n\t\tvrt.Round = round\n'
+                         '\t\t{\n\t\t\tcid := vrt.ArgID("c")\n\t\t\tspec := &vrt.Spec{RetErr: true, Nodes: []vrt.Node{{Name: "NewDBErr", Kind: vrt.KFunc, HasErr: true, Params: []vrt.Ref{{Node: 1}}}, {Name: "dep", Kind: vrt.KArg}}, Result: []vrt.Ref{{Node: 0}}, ArgIDs: [][]int{nil, {cid}}}\n'
+                         '\t\t\tvrt.Reset()\n\t\t\tres, err := InjectDB(dep.Dep{ID: cid})\n\t\t\tvrt.Check(spec, vrt.Outcome{Result: []int{res.ID}, Err: err, CleanupNil: true})\n\t\t}\n'
+                         '\t\t{\n\t\t\tcid := vrt.ArgID("c2")\n\t\t\tspec := &vrt.Spec{RetErr: true, RetCleanup: true, Nodes: []vrt.Node{{Name: "unused", Kind: vrt.KValue}, {Name: "vrt", Kind: vrt.KArg}, {Name: "NewPtr", Kind: vrt.KFunc, HasErr: true, HasCleanup: true, Params: []vrt.Ref{{Node: 1}}}}, Result: []vrt.Ref{{Node: 2}}, ArgIDs: [][]int{nil, {cid}, nil}}\n'
+                         '\t\t\tvrt.Reset()\n\t\t\tres, cl, err := InjectPtr(dep.Dep{ID: cid})\n\t\t\trid := 0\n\t\t\tif res != nil {\n\t\t\t\trid = res.ID\n\t\t\t}\n\t\t\tvrt.Check(spec, vrt.Outcome{Result: []int{rid}, Err: err, Cleanup: cl, CleanupNil: cl == nil})\n\t\t}\n'
+                         '\t\t{\n\t\t\tspec := &vrt.Spec{RetErr: true, Nodes: []vrt.Node{{Name: "dep.NewArr", Kind: vrt.KFunc, HasErr: true, Params: []vrt.Ref{{Node: 1}}}, {Name: "dep.NewDep", Kind: vrt.KFunc}}, Result: []vrt.Ref{{Node: 0, Comp: 0}, {Node: 0, Comp: 1}}, ArgIDs: make([][]int, 2)}\n'
+                         '\t\t\tvrt.Reset()\n\t\t\tres, err := InjectArr()\n\t\t\tvrt.Check(spec, vrt.Outcome{Result: []int{res[0].ID, res[1].ID}, Err: err, CleanupNil: true})\n\t\t}\n\t}\n}\n'),
+    }
+    extra = {'dep': {'dep.go': ('package dep\n\nimport "example.com/corpus/vrt"\n\ntype DB struct{ ID int }\ntype Dep struct{ ID int }\n\nfunc NewDep() Dep {\n\tid, _ := vrt.Call(1, false)\n\treturn Dep{ID: id}\n}\n\n'
+                                'func NewArr(d Dep) ([2]DB, error) {\n\tid, err := vrt.Call(0, true, d.ID)\n\tif err != nil {\n\t\treturn [2]DB{}, err\n\t}\n\treturn [2]DB{{ID: id}, {ID: id + 1}}, nil\n}\n')}}
+    specs.append(RawSpec(files, 'types of another package only in signatures and zero values (struct, pointer, array results with fallible providers); parameters named like the imported packages (dep, vrt)', family='frontend', extra_pkgs=extra))
     # --- several provider-set variables declared in one var spec
     files = {
         'providers.go': ('package {PKG}\n\nimport (\n\t"example.com/corpus/vrt"\n\t"github.com/google/wire"\n)\n\ntype A struct{ ID int }\ntype B struct{ ID int }\ntype R struct{ ID int }\n\n'
